@@ -26,6 +26,15 @@ def check(ctx, cfg):
     r2(ctx, cfg)
     r3(ctx, cfg)
     r4(ctx, cfg)
+    r5(ctx, cfg)
+
+
+def r5(ctx, cfg):
+    """premise shared with C17: the reply mode, id and payload that execute_submsg acts on are the ones the contract put
+    into its sub-message - for contracts written against `Empty` the sub-message passes through customize_msg first, which
+    must carry id, payload, gas_limit and reply_on over unchanged"""
+    from rules import C17
+    C17.submsg_fields(ctx, cfg, "C03.R5")
 
 
 def r1(ctx, cfg):
